@@ -32,7 +32,10 @@ def configs(tier):
                     checks.append(["uniq", "IsUnique", "id"])
                 if "kind" in fields:
                     checks.append(["dc", "DistinctCount", "kind < 3"])
-                result.append({"preset": preset, "header": header, "fields": fields, "checks": checks})
+                config = {"preset": preset, "header": header, "fields": fields, "checks": checks}
+                if preset == "ods":
+                    config["odf"] = {"col_runs": True}  # runs of equal cells are stored once, as office suites do
+                result.append(config)
     return result
 
 
